@@ -210,6 +210,9 @@ class ModuleFinder:
             stubs = self.find_package(top_module_name + "-stubs")
         except ModuleNotFoundError:
             stubs = None
+        # A regular module or package that is merely named like a stubs package is not one.
+        if isinstance(stubs, Package) and stubs.path.suffix != ".pyi":
+            stubs = None
 
         # None found, raise error.
         if package is None and stubs is None:
